@@ -75,7 +75,8 @@ def run_tlc(module, cfg_text, name, workers=4, timeout=900, simulate=None, depth
     open(cfg, "w").write(cfg_text)
     out = os.path.join(d, "out.txt")
     cmd = ["timeout", str(timeout), "java", "-XX:+UseParallelGC", "-XX:ParallelGCThreads=2",
-           "-XX:TieredStopAtLevel=4", "-Dfile.encoding=UTF-8", "-Dstdout.encoding=UTF-8"] + java_opts.split()
+           "-XX:TieredStopAtLevel=4", "-Dfile.encoding=UTF-8", "-Dstdout.encoding=UTF-8",
+           "-Djava.io.tmpdir=" + d] + java_opts.split()        # TLC drops a tlc-* directory per run into the tmpdir
     cmd.append("-Xmx" + (heap or "3g"))
     cmd += ["-cp", "/opt/veriftools/tla/tla2tools.jar:/opt/veriftools/tla/CommunityModules-deps.jar", "tlc2.TLC",
             "-workers", str(workers), "-metadir", os.path.join(d, "md"), "-cleanup", "-noGenerateSpecTE",
